@@ -96,6 +96,8 @@ structure St where
   ep : Bool := false
   denom : Img := []
   stepsDone : Nat := 0
+  /-- the object has been through a successful `set_up` (then `denom` is `*precomputed_denominator_ptr`) -/
+  everSetUp : Bool := false
   deriving Inhabited
 
 def St.params (s : St) : Params :=
@@ -193,6 +195,59 @@ def elemPairs : List String → List (Nat × Rat)
   | j :: v :: r => (j.toNat?.getD 0, (parseHex v).getD 0) :: elemPairs r
   | _ => []
 
+/-- `setup` / `resetup`: `set_up(target)` with `precomputed denominator` "" or "1"; `reuse`: on the object as the previous run
+    left it (the model is handed the stored denominator of that run) -/
+def doSetup (s : St) (reuse : Bool) (st k ep : String) (img : List String) : St × String :=
+  let I (t : String) : Int := t.toInt?.getD 0
+  let s := s.build
+  let s := { s with start := I st, numSub := I k, ep := ep == "1", stepsDone := 0 }
+  match s.problem, parseVec img with
+  | some q, some x =>
+    -- set_up does not evaluate the Hessian when it refuses: only compute it when needed (and only once per problem)
+    let old : Option Img := if reuse && s.everSetUp then some s.denom else none
+    match setUpObject s.params (q.toObjectiveWith [] s.nonIdent.toList) s.start none old x with
+    | none => (s, "err")
+    | some _ =>
+     let s := if s.dones then s else s.withHess
+     let hess := if s.dones then [] else (s.hess.getD #[]).toList
+     match setUpObject s.params (q.toObjectiveWith hess s.nonIdent.toList) s.start none old x with
+     | none => (s, "err")
+     | some (x', dset) =>
+      let tx := List.zipWith (fun a b => if a == b then (0 : Rat) else 4 * eps * absR b + tiny) x x'
+      let s := { s with denom := dset, everSetUp := true }
+      if s.dones then (s, "ok | " ++ joinVT x' tx ++ " | unobserved")
+      else
+        let n := opCount q
+        let td := dset.map (fun d => 4 * eps * (n : Rat) * absR d + tiny)
+        (s, "ok | " ++ joinVT x' tx ++ " | " ++ joinVT dset td)
+  | _, _ => (s, "bad-setup")
+
+/-- `setupf` / `resetupf`: `set_up(target)` with `precomputed denominator := <file>` -/
+def doSetupFile (s : St) (reuse : Bool) (st k ep : String) (rest : List String) : St × String :=
+  let I (t : String) : Int := t.toInt?.getD 0
+  let s := s.build
+  let s := { s with start := I st, numSub := I k, ep := ep == "1", stepsDone := 0 }
+  match s.problem, sections rest with
+  | some q, [img, tch, fch, dv] =>
+    match parseVec img, parseChars tch with
+    | some x, some tc =>
+      let file : Option DenomFile :=
+        if fch == ["missing"] then some .unreadable
+        else match parseChars fch, parseVec dv with
+          | some fc, some d => some (.image fc d)
+          | _, _ => none
+      match file with
+      | none => (s, "bad-setupf")
+      | some file =>
+        let old : Option Img := if reuse && s.everSetUp then some s.denom else none
+        match setUpObject s.params (q.toObjectiveWith [] s.nonIdent.toList) s.start (some (tc, file)) old x with
+        | none => (s, "err")
+        | some (x', dset) =>
+          let tx := List.zipWith (fun a b => if a == b then (0 : Rat) else 4 * eps * absR b + tiny) x x'
+          ({ s with denom := dset, everSetUp := true }, "ok | " ++ joinVT x' tx ++ " | unobserved")
+    | _, _ => (s, "bad-setupf")
+  | _, _ => (s, "bad-setupf")
+
 def stepLine (s : St) (line : String) : St × String :=
   let toks := (line.trimAscii.toString.splitOn " ").filter (· ≠ "")
   let I (t : String) : Int := t.toInt?.getD 0
@@ -206,6 +261,22 @@ def stepLine (s : St) (line : String) : St × String :=
     ({ nz := N nz, ny := N ny, nx := N nx, ns := I ns, ss := I ss, alpha := R al, gamma := R ga, ub := R ub,
        priorKind := pk, beta := R be, nvg := N nvg, dones := dones == "1", subsens := subsens == "1", rand := rnd == "1",
        filt := N fk, filtInterval := I fi, postfilt := N pf }, "ok")
+  -- the SAME reconstruction object is configured anew (data, normalisation, prior, subsets, relaxation … changed by the
+  -- user): a new problem, but the object keeps `*precomputed_denominator_ptr` as the previous run left it
+  | "recfg" :: _ :: "dims" :: nz :: ny :: nx :: "ns" :: ns :: "ss" :: ss :: "alpha" :: al :: "gamma" :: ga :: "ub" :: ub
+      :: "prior" :: pk :: "beta" :: be :: "kappa" :: _ :: "add" :: _ :: "nvg" :: nvg :: "dones" :: dones
+      :: "norm" :: _ :: "tof" :: _ :: "tofsens" :: _ :: "zero" :: _ :: "subsens" :: subsens :: "rand" :: rnd
+      :: "filt" :: fk :: fi :: pf :: _ =>
+    ({ nz := N nz, ny := N ny, nx := N nx, ns := I ns, ss := I ss, alpha := R al, gamma := R ga, ub := R ub,
+       priorKind := pk, beta := R be, nvg := N nvg, dones := dones == "1", subsens := subsens == "1", rand := rnd == "1",
+       filt := N fk, filtInterval := I fi, postfilt := N pf, denom := s.denom, everSetUp := s.everSetUp }, "ok")
+  -- a parameter file that does not mention `relaxation parameter`, `relaxation gamma`, `upper bound`, `enforce initial
+  -- positivity condition`: the run uses what `set_defaults` left (the model's `Params.default`), whatever the cfg line said
+  -- (the harness passes the parsed `enforce_initial_positivity`, which this line's answer pins to the default, in `setup`)
+  | ["pardefaults"] =>
+    let d := Params.default
+    ({ s with alpha := d.alpha, gamma := d.gamma, ub := d.upperBound },
+     s!"{if d.enforceInitialPositivity then 1 else 0} {fmtVT d.upperBound 0} {fmtVT d.alpha 0} {fmtVT d.gamma 0}")
   | ["defaults"] =>
     let d := Params.default
     (s, s!"{if d.enforceInitialPositivity then 1 else 0} {fmtVT d.upperBound 0} {fmtVT d.alpha 0} {fmtVT d.gamma 0} {d.numSubsets} {d.startSubset} {d.numSubiterations} 1 {if d.denominatorOnes then "given" else "computed"}")
@@ -221,46 +292,11 @@ def stepLine (s : St) (line : String) : St × String :=
   | ["sens0"] =>
     let s := s.build
     (s, String.ofList (s.nonIdent.toList.map fun b => if b then '1' else '0'))
-  | "setup" :: st :: k :: ep :: "|" :: img =>
-    let s := s.build
-    let s := { s with start := I st, numSub := I k, ep := ep == "1", stepsDone := 0 }
-    match s.problem, parseVec img with
-    | some q, some x =>
-      -- set_up does not evaluate the Hessian when it refuses: only compute it when needed (and only once per problem)
-      match setUp s.params (q.toObjectiveWith [] s.nonIdent.toList) s.start x with
-      | none => (s, "err")
-      | some (x', dset) =>
-        let tx := List.zipWith (fun a b => if a == b then (0 : Rat) else 4 * eps * absR b + tiny) x x'
-        if s.dones then ({ s with denom := dset }, "ok | " ++ joinVT x' tx ++ " | unobserved")
-        else
-          let s := s.withHess
-          let d0 := ((s.hess.getD #[]).map (fun a => -a)).toList
-          let n := opCount q
-          let td := d0.map (fun d => 4 * eps * (n : Rat) * absR d + tiny)
-          ({ s with denom := d0 }, "ok | " ++ joinVT x' tx ++ " | " ++ joinVT d0 td)
-    | _, _ => (s, "bad-setup")
-  | "setupf" :: st :: k :: ep :: "|" :: rest =>
-    let s := s.build
-    let s := { s with start := I st, numSub := I k, ep := ep == "1", stepsDone := 0 }
-    match s.problem, sections rest with
-    | some q, [img, tch, fch, dv] =>
-      match parseVec img, parseChars tch with
-      | some x, some tc =>
-        let file : Option DenomFile :=
-          if fch == ["missing"] then some .unreadable
-          else match parseChars fch, parseVec dv with
-            | some fc, some d => some (.image fc d)
-            | _, _ => none
-        match file with
-        | none => (s, "bad-setupf")
-        | some file =>
-          match setUpFile s.params (q.toObjectiveWith [] s.nonIdent.toList) s.start tc file x with
-          | none => (s, "err")
-          | some (x', dset) =>
-            let tx := List.zipWith (fun a b => if a == b then (0 : Rat) else 4 * eps * absR b + tiny) x x'
-            ({ s with denom := dset }, "ok | " ++ joinVT x' tx ++ " | unobserved")
-      | _, _ => (s, "bad-setupf")
-    | _, _ => (s, "bad-setupf")
+  | "setup" :: st :: k :: ep :: "|" :: img => doSetup s false st k ep img
+  | "setupf" :: st :: k :: ep :: "|" :: rest => doSetupFile s false st k ep rest
+  -- `set_up` on the object that has been set up and run before
+  | "resetup" :: st :: k :: ep :: "|" :: img => doSetup s true st k ep img
+  | "resetupf" :: st :: k :: ep :: "|" :: rest => doSetupFile s true st k ep rest
   | "d0sync" :: "|" :: d =>
     match parseVec d with
     | some dv => ({ s with denom := dv }, "ok")
